@@ -14,6 +14,7 @@ package util
 //@ func processDependencyTags
 //@   props C11
 //@   requires depsNonNil(reqs)
+//@   requires [values-are-a-private-coalesced-copy] exists ch *chart.Chart, vv gomap[string]interface{} :: coalescedFrom(cvals, ch, vv)
 //@   ensures [no-tags-table] !hasTable(cvals, "tags") ==> forall j int :: 0 <= j && j < len(reqs) ==> reqs[j].Enabled == old(reqs[j].Enabled)
 //@   ensures [truth-table] hasTable(cvals, "tags") ==> forall j int :: 0 <= j && j < len(reqs) ==> reqs[j].Enabled == (anyTagTrue(reqs[j], tableOf(cvals, "tags")) || !anyTagFalse(reqs[j], tableOf(cvals, "tags")))
 //@   loop 1 invariant [done] forall j int :: 0 <= j && j < #iter ==> reqs[j].Enabled == (anyTagTrue(reqs[j], vt) || !anyTagFalse(reqs[j], vt))
@@ -29,6 +30,7 @@ package util
 //@ func processDependencyConditions
 //@   props C11
 //@   requires depsNonNil(reqs)
+//@   requires [values-are-a-private-coalesced-copy] exists ch *chart.Chart, vv gomap[string]interface{} :: coalescedFrom(cvals, ch, vv)
 //@   ensures [first-bool-decides] forall i, j int :: 0 <= i && i < len(reqs) && 0 <= j && j < condParts(reqs[i]) && decides(reqs[i], cvals, cpath, j) && (forall k int :: 0 <= k && k < j ==> !decides(reqs[i], cvals, cpath, k)) ==> reqs[i].Enabled == condValue(reqs[i], cvals, cpath, j)
 //@   ensures [none-unchanged] forall i int :: 0 <= i && i < len(reqs) && (forall k int :: 0 <= k && k < condParts(reqs[i]) ==> !decides(reqs[i], cvals, cpath, k)) && (forall i2 int :: 0 <= i2 && i2 < len(reqs) && i2 != i ==> reqs[i2] != reqs[i]) ==> reqs[i].Enabled == old(reqs[i].Enabled)
 //@   loop 1 invariant [done] forall i, j int :: 0 <= i && i < #iter && 0 <= j && j < condParts(reqs[i]) && decides(reqs[i], cvals, cpath, j) && (forall k int :: 0 <= k && k < j ==> !decides(reqs[i], cvals, cpath, k)) ==> reqs[i].Enabled == condValue(reqs[i], cvals, cpath, j)
@@ -64,3 +66,19 @@ package util
 //@   ensures [validated] err == nil && !skipSchemaValidation ==> treeOK(chrt, coalV(chrt, chrtVals))
 //@   ensures [values-present] err == nil ==> has(result, "Values") && result["Values"].(Values) == coalV(chrt, chrtVals)
 //@   ensures [no-values-on-error] err != nil ==> !has(result, "Values")
+
+// ---- C16: expanding a chart archive writes only inside the destination directory (expand.go)
+
+//@ func Expand
+//@   props C16
+//@   requires loader.MaxDecompressedChartSize > 0 && loader.MaxDecompressedFileSize > 0
+//@   ensures [writes-confined] forall p string :: GwrittenPaths[p] && !old(GwrittenPaths)[p] ==> confined(p, fclean(dir))
+//@   loop 1 invariant GwrittenPaths == old(GwrittenPaths)
+//@   loop 2 invariant [writes-confined] forall p string :: GwrittenPaths[p] && !old(GwrittenPaths)[p] ==> confined(p, fclean(dir))
+//@   loop 2 invariant [chartdir-confined] confined(chartdir, fclean(dir))
+
+// ---- C11: processDependencyEnabled evaluates tags and conditions on a private, coalesced copy of the values
+
+//@ func processDependencyEnabled
+//@   props C11
+//@   requires c != nil && c.Metadata != nil && (forall j int :: 0 <= j && j < len(c.Metadata.Dependencies) ==> c.Metadata.Dependencies[j] != nil)
